@@ -23,7 +23,7 @@ def cases(seed, tier):
                 cs.append((f'a{k}', f'cps|{g}|{p}|{r}'))
                 k += 1
     dist['exhaustive_2x2'] = len(p22)
-    n = 10000 if tier == 'quick' else 1000000
+    n = 10000 if tier == 'quick' else 2000000
     sizes = [(3, 2), (2, 3), (3, 2), (2, 3), (4, 2), (2, 4), (3, 3), (5, 2), (6, 2), (2, 6), (4, 3)]
     for i in range(n):
         S, C = rng.choice(sizes)
@@ -32,6 +32,12 @@ def cases(seed, tier):
         r = rng.choice([2, 3, 3, 4, 4, 5, 5, 6] if tier == 'quick' else RADII)
         cs.append((f'r{i}', f'cps|{rng.choice(GOALS)}|{p}|{r}'))
     dist['random_tables'] = n
+    dg = gen.degenerate_programs()
+    for i, p in enumerate(dg):
+        for g in GOALS:
+            for r in (2, 3, 5):
+                cs.append((f'd{i}{g}{r}', f'cps|{g}|{p}|{r}'))
+    dist['degenerate (empty / A0 undefined)'] = len(dg)
     named = gen.named_machines()
     for i, p in enumerate(named[:: (4 if tier == 'quick' else 1)]):
         cs.append((f'n{i}', f'cps|{rng.choice(GOALS)}|{p}|{rng.choice([3, 4, 5])}'))
